@@ -118,6 +118,9 @@ class _SimpleWrapped(object):
 
     __signature__ = specifiers.as_forged
 
+    def _sigtools__forger(self, obj):
+        return specifiers.signature(self.func)
+
     def __call__(self, *args, **kwargs):
         return self.func(*args, **kwargs)
 
